@@ -36,16 +36,17 @@ RULE = ("args unchanged by loads/dumps/validate/find* (deep snapshots, judged by
 
 PURE = ["loads", "dumps", "validate", "find", "findall", "findunique", "findkey"]
 CORE = ["loads", "dumps", "validate", "findall"]
-ALLDOCS = [1, 2, 3, 4, 5, 6]
+ALLDOCS = [1, 2, 3, 4, 5, 6, 7, 8]
 BUILD = os.path.join(common.VERIF, "build")
 
 
 def calls_cfg(threads, policy, kinds, docs, maxcalls, maxper, clears=True, keyv=True, lower=True, finds=False,
-              record=False, mode="free", invs=("SeqEquivalent", "TypeOK"), props=("ArgsUnchanged",)):
+              inccache="none", fmtcopy=True, record=False, mode="free", invs=("SeqEquivalent", "TypeOK"), props=("ArgsUnchanged",)):
     return tlc.cfg_text(constants={
         "Threads": set(threads), "Policy": policy, "Mode": mode, "Kinds": set(kinds), "Docs": set(docs),
         "MaxCalls": maxcalls, "MaxPerThread": maxper, "ClearsBuf": clears, "KeyByVersion": keyv,
-        "LowerOnCopy": lower, "FindInserts": finds, "Record": record}, invariants=list(invs), properties=list(props))
+        "LowerOnCopy": lower, "FindInserts": finds, "IncCache": inccache, "FormatOnCopy": fmtcopy,
+        "Record": record}, invariants=list(invs), properties=list(props))
 
 
 def run_calls(name, cfg, script=None, workers=1, timeout=300, **kw):
@@ -54,7 +55,10 @@ def run_calls(name, cfg, script=None, workers=1, timeout=300, **kw):
         os.makedirs(BUILD, exist_ok=True)
         with open(path, "w") as f:
             f.write("[]")
-    return tlc.run("Calls", cfg, tag="c12_" + name, workers=workers, env={"C12_SCRIPT": path}, timeout=timeout, **kw)
+    r = tlc.run("Calls", cfg, tag="c12_" + name, workers=workers, env={"C12_SCRIPT": path}, timeout=timeout, **kw)
+    if "is specified as UNCHANGED" in r.out:
+        raise common.MachineryFailure("spec/Calls.tla: TLC warns about a variable changed although UNCHANGED (%s)" % name)
+    return r
 
 
 NEGATIVES = [
@@ -67,6 +71,10 @@ NEGATIVES = [
                                     clears=False), "SeqEquivalent"),
     ("neg_cache_key_no_version", dict(threads=[1], policy="shared_all", kinds=["validate"], docs=[4, 5], maxcalls=3, maxper=3,
                                       keyv=False), "SeqEquivalent"),
+    ("neg_include_cache_by_name", dict(threads=[1], policy="shared_all", kinds=["loads"], docs=[1, 7, 8], maxcalls=2, maxper=2,
+                                       inccache="by_name"), "SeqEquivalent"),
+    ("neg_format_in_place", dict(threads=[1], policy="fresh", kinds=["dumps"], docs=[1, 4], maxcalls=2, maxper=2,
+                                 fmtcopy=False), "ArgsUnchanged"),
     ("neg_lower_in_place", dict(threads=[1], policy="fresh", kinds=["validate"], docs=[4, 5], maxcalls=2, maxper=2,
                                 lower=False), "ArgsUnchanged"),
     ("neg_find_inserts", dict(threads=[1], policy="fresh", kinds=["find", "findall"], docs=[1, 4], maxcalls=2, maxper=2,
@@ -112,6 +120,8 @@ def make_scripts(doctable, rng, quick):
         (D("findall", 1), D("findall", 1), 1, 1, "same"),
         (D("findunique", 1, key="some"), D("loads", 1, True), 1, b, "same"),
         (D("findkey", 4), D("dumps", 4), 1, 3, "same"),
+        # two documents in different folders with a same-named relative INCLUDE, read through open/load
+        (D("loads", 7, True), D("loads", 8, True), c, b, "same"),
     ]
     out = []
     for x, y, nx, ny, rel in pairs:
@@ -207,6 +217,7 @@ def _run(ck, seed, quick, pool, nproc, t0):
     for i, ch in enumerate(chunks(files, nproc if quick else nproc * 3)):
         pur_jobs.append(pool.apply_async(L.task_purity, ({"base": (i + 1) * 100000, "seed": seed * 100 + i, "files": ch,
                                                           "light": quick},)))
+    slots_f = ex.submit(docsmod.slots, "c12_slots", ck)
     walks_f = ex.submit(purity_texts, ck, 120 if quick else 800, seed)
 
     # ---- (M) a first tiny run (one of the negative configurations) also delivers the document table
@@ -217,8 +228,12 @@ def _run(ck, seed, quick, pool, nproc, t0):
     if not doctable:
         raise common.MachineryFailure("spec/Calls.tla did not print its document table")
 
+    root = os.path.join(BUILD, "c12_files_%d" % seed)
+    L.write_files(L.build_docs(doctable, seed, 2, root), root)
+    env_job = {"seed": seed, "doctable": doctable, "root": root}
+
     model_jobs = {"purity_model(1 thread, 3 calls, all kinds incl. the two mutating ones)": ex.submit(
-        run_calls, "purity_model", calls_cfg([1], "fresh", PURE + ["dumps_sep", "validate_addc"], [1, 4, 5], 3, 3), None, 2, tmo)}
+        run_calls, "purity_model", calls_cfg([1], "fresh", PURE + ["dumps_sep", "validate_addc"], [1, 4, 5, 7], 3, 3), None, 2, tmo)}
     if quick:
         model_jobs["fresh_2threads"] = ex.submit(run_calls, "fresh2", calls_cfg([1, 2], "fresh", PURE, ALLDOCS, 2, 1),
                                                  None, 4, tmo)
@@ -252,6 +267,11 @@ def _run(ck, seed, quick, pool, nproc, t0):
         pur_jobs.append(pool.apply_async(L.task_purity, ({"base": (50 + i) * 100000, "seed": seed * 100 + 50 + i, "texts": ch,
                                                           "light": quick},)))
 
+    # ---- purity on the slot product (every keyword x value shape)
+    slot_hists = slots_f.result()
+    for i, ch in enumerate(chunks(slot_hists, nproc * 2)):
+        pur_jobs.append(pool.apply_async(L.task_purity_slots, ({"base": (100 + i) * 100000, "seed": seed, "hists": ch},)))
+
     # ---- schedules -> worker processes
     mark("walks_rendered")
     rs = sched_f.result()
@@ -279,7 +299,7 @@ def _run(ck, seed, quick, pool, nproc, t0):
         heavy = sum(1 for calls in script for c in calls if c["kind"] == "loads")
         size = 12 if heavy == 2 else 20 if heavy else 40
         for ch in [ps[i:i + size] for i in range(0, len(ps), size)]:
-            job = {"seed": seed, "doctable": doctable, "script": script, "sid": sid, "variants": variants,
+            job = {"seed": seed, "doctable": doctable, "root": root, "script": script, "sid": sid, "variants": variants,
                    "scheds": [p["sched"] for p in ch], "hists": [p["hist"] for p in ch]}
             sched_jobs.append((heavy, sid, job))
     sched_jobs.sort(key=lambda x: -x[0])
@@ -295,8 +315,14 @@ def _run(ck, seed, quick, pool, nproc, t0):
     hists = [p["hist"] for p in rh.prints if isinstance(p, dict) and "hist" in p and p["hist"]]
     if len(hists) < nh * 0.9:
         raise common.MachineryFailure("TLC produced %d histories, wanted %d" % (len(hists), nh))
-    reuse_async = [pool.apply_async(L.task_reuse, ({"seed": seed, "doctable": doctable, "hists": ch},))
+    reuse_async = [pool.apply_async(L.task_reuse, (dict(env_job, hists=ch),))
                    for ch in chunks(hists, 4 if quick else nproc)]
+
+    # ---- stress: free-running threads; queued behind the schedule and re-use jobs, so they start as
+    #      worker processes become free (schedule waits have 180 s deadlines)
+    secs = 4 if quick else 40
+    stress_async = [pool.apply_async(L.task_stress, (dict(env_job, seconds=secs, proc=i, same_input=i % 2 == 0),))
+                    for i in range(8 if quick else nproc)]
 
     # ---- collect (M)
     for name, f in model_jobs.items():
@@ -367,8 +393,9 @@ def _run(ck, seed, quick, pool, nproc, t0):
         if not quick or len(records) > 2000:
             raise common.MachineryFailure("the snapshots never saw the two documented mutating calls change their "
                                           "argument (%s): snapshot machinery suspect" % rep["mutobs"])
-    if loaded < 0.6 * (len(files) + len(texts)):
-        raise common.MachineryFailure("only %d of %d purity documents loaded" % (loaded, len(files) + len(texts)))
+    if loaded < 0.6 * (len(files) + len(texts) + len(slot_hists)):
+        raise common.MachineryFailure("only %d of %d purity documents loaded" % (
+            loaded, len(files) + len(texts) + len(slot_hists)))
     ck.sample({"purity_record": records[len(records) // 2]})
 
     mark("purity_judged")
@@ -407,12 +434,6 @@ def _run(ck, seed, quick, pool, nproc, t0):
     ck.sample({"forced_schedule": {"script": scripts[0][0], "one_of": expected_counts.get(1),
                                    "schedule": sched_key(sched_jobs[0][2]["scheds"][0]) if sched_jobs else None}})
 
-    # ---- stress: free-running threads, once the forced schedules are through (the stress processes
-    #      would starve the schedule processes of CPU and stretch their deadlines)
-    secs = 4 if quick else 40
-    stress_async = [pool.apply_async(L.task_stress, ({"seed": seed, "doctable": doctable, "seconds": secs, "proc": i,
-                                                      "same_input": i % 2 == 0},))
-                    for i in range(8 if quick else nproc)]
     mark("schedules_done")
     # ---- collect stress
     stress_counts = {}
@@ -466,6 +487,8 @@ def replay(path):
             return 1
         print("not reproduced")
         return 0
+    if part in ("reuse", "schedule") and case.get("root"):
+        L.write_files(L.build_docs(case["doctable"], case["seed"], 2, case["root"]), case["root"])
     if part == "reuse":
         docs, refs = L.get_env(case)
         W = L.Workers()
@@ -482,7 +505,7 @@ def replay(path):
         print("not reproduced")
         return 0
     if part == "schedule":
-        job = {"seed": case["seed"], "doctable": case["doctable"], "script": case["script"], "sid": 0,
+        job = {"seed": case["seed"], "doctable": case["doctable"], "root": case.get("root"), "script": case["script"], "sid": 0,
                "variants": case["variants"], "scheds": [case["schedule"]], "hists": None}
         res = L.task_schedules(job)
         if res["failures"]:
